@@ -581,4 +581,13 @@ def affine_kinds(repo: Repo) -> RuleRun:
 
 affine_kinds.rule_id = "C10.AFFINE-KINDS"
 
-RULES = [face_permutations, edge_map_rule, side_addressing, select_polarity, arguments_untouched, written_sides, no_class_state, affine_kinds]
+def no_shared_parts(repo: Repo) -> RuleRun:
+    """Projecting one more side adds its label to the edges of THAT side only: every projected edge slot holds its own Project record. Same rule as C09.NO-SHARED-PARTS."""
+    from ..alias import shared_parts_rule
+
+    return shared_parts_rule(repo, PROP, "C10.NO-SHARED-PARTS")
+
+
+no_shared_parts.rule_id = "C10.NO-SHARED-PARTS"
+
+RULES = [face_permutations, edge_map_rule, side_addressing, select_polarity, arguments_untouched, written_sides, no_class_state, affine_kinds, no_shared_parts]
